@@ -16,6 +16,7 @@
 #include <chrono>
 #include <cstdio>
 #include <cstdlib>
+#include <cstring>
 
 namespace vs {
 
@@ -99,9 +100,43 @@ struct Sched
 thread_local int Sched::self = -1;
 static Sched * S = nullptr;
 
-// optional: what the harness wants to know about unsynchronised structural accesses
+// what the harness wants to know about unsynchronised structural accesses: how many / which policy mutexes the thread holds
 static int g_locksHeld[16];
+static std::vector<const void *> g_heldSet[16];
 static inline int locksHeld() { return Sched::self >= 0 ? g_locksHeld[Sched::self] : 1; }
+static inline void heldAdd(int t, const void * m) { g_heldSet[t].push_back(m); }
+static inline void heldDel(int t, const void * m) { for(size_t i = 0; i < g_heldSet[t].size(); ++i) if(g_heldSet[t][i] == m) { g_heldSet[t].erase(g_heldSet[t].begin() + i); break; } }
+
+// Eraser-style lockset per shared structure (the structure is named by the marker's tag group): the set of mutexes held at EVERY
+// structural access so far; empty while at least two threads have accessed it = no common lock protects the structure
+struct Lockset
+{
+	struct S { bool init; std::vector<const void *> common; unsigned threads; };
+	S s[8];
+	void reset() { for(auto & x : s) { x.init = false; x.common.clear(); x.threads = 0; } }
+	static int group(const char * tag)
+	{
+		if(tag[0] == 'c') return 0;                                   // cl.*  links of a callback list
+		if(tag[0] == 'd') return 1;                                   // d.map.*
+		if(std::strncmp(tag, "q.recycle", 9) == 0 || std::strncmp(tag, "q.reuse", 7) == 0) return 2;     // freeList
+		return 3;                                                     // queueList
+	}
+	// returns true when the access leaves the structure without a common lock
+	bool access(const char * tag, int t)
+	{
+		S & x = s[group(tag)];
+		const std::vector<const void *> & held = g_heldSet[t];
+		if(! x.init) { x.init = true; x.common = held; }
+		else {
+			std::vector<const void *> keep;
+			for(const void * m : x.common) for(const void * h : held) if(m == h) { keep.push_back(m); break; }
+			x.common.swap(keep);
+		}
+		x.threads |= 1u << t;
+		return x.common.empty() && (x.threads & (x.threads - 1)) != 0;
+	}
+};
+static Lockset g_lockset;
 
 struct Mutex
 {
@@ -118,6 +153,7 @@ struct Mutex
 			}
 			owner = Sched::self;
 			++g_locksHeld[Sched::self];
+			heldAdd(Sched::self, this);
 		}
 	}
 	void unlock()
@@ -127,6 +163,7 @@ struct Mutex
 			std::unique_lock<std::mutex> lk(S->m);
 			owner = -1;
 			--g_locksHeld[Sched::self];
+			heldDel(Sched::self, this);
 			for(auto & t : S->th) if(t.blockedOnMutex == this) t.blockedOnMutex = nullptr;
 		}
 		S->point("unlock");
@@ -192,6 +229,7 @@ private:
 				Mutex * mx = lk.mutex();
 				mx->owner = -1;
 				--g_locksHeld[me];
+				heldDel(me, mx);
 				for(auto & t : S->th) if(t.blockedOnMutex == mx) t.blockedOnMutex = nullptr;
 				waitset.push_back(me);
 				Sched::T & t = S->th[me];
